@@ -5,7 +5,8 @@ open IV IV.Proto IV.ClientState
 /-! line protocol for C17 (stateful: one history = `init` followed by operations)
 
   init  has0 has1  id reg0 unreg0 reg1 unreg1  ext0 ext1 ext2 ext3     → state
-  read|new  rhsm|~  fresh          → res TAB state
+  read|new  entry-point  rhsm|~  fresh   → res TAB state
+  fetch rhsm|~ fresh | connunreg | handleunreg 0|1 | regcheck 1|0|~ rhsm|~ fresh   → res TAB state
   reg | unreg date|~ | delreg | delunreg                               → res TAB state
   canon s                           → canonical form or `E`
 node fields: `A` absent, `D` directory, `F<str>` file, `L<k>` symlink to ext k
@@ -45,6 +46,19 @@ def showRes : Res → String
 def decOpt (f : String) : Option (Option Str) :=
   if f = "~" then some none else (decStr f).map some
 
+def decReader (f : String) : Option Reader :=
+  if f = "explicit" then some .explicit else if f = "default" then some .default
+  else if f = "clientfn" then some .clientFn else if f = "clientobj" then some .clientObj
+  else if f = "create" then some .createSystem else if f = "legacyunreg" then some .legacyUnregister else none
+
+def decRegen (f : String) : Option Regen :=
+  if f = "explicit" then some .explicit else if f = "default" then some .default
+  else if f = "create" then some .createSystem else none
+
+/-- answer of the inventory: 1 found, 0 not found (404), ~ unreachable -/
+def decTri (f : String) : Option (Option Bool) :=
+  if f = "~" then some none else (decBool f).map some
+
 abbrev St := Option (Env × FS)
 
 def apply (s : St) (op : Option Op) : St × String :=
@@ -65,8 +79,12 @@ def handle (s : St) (fs : List String) : St × String :=
         fun k => match es[k]? with | some n => n | none => .absent⟩
       (some (E, fs), showState E fs)
     | _, _, _, _ => (s, "bad-op")
-  | ["read", r, f] => apply s (do let r ← decOpt r; let f ← decStr f; pure (.readId r f))
-  | ["new", r, f] => apply s (do let r ← decOpt r; let f ← decStr f; pure (.newId r f))
+  | ["read", rd, r, f] => apply s (do let rd ← decReader rd; let r ← decOpt r; let f ← decStr f; pure (.readId rd r f))
+  | ["new", w, r, f] => apply s (do let w ← decRegen w; let r ← decOpt r; let f ← decStr f; pure (.newId w r f))
+  | ["fetch", r, f] => apply s (do let r ← decOpt r; let f ← decStr f; pure (.fetch r f))
+  | ["connunreg"] => apply s (some .connUnregister)
+  | ["handleunreg", b] => apply s (do let b ← decBool b; pure (.handleUnregistration b))
+  | ["regcheck", h, r, f] => apply s (do let h ← decTri h; let r ← decOpt r; let f ← decStr f; pure (.registrationCheck h r f))
   | ["reg"] => apply s (some .register)
   | ["unreg", d] => apply s (do let d ← decOpt d; pure (.unregister d))
   | ["delreg"] => apply s (some .deleteRegistered)
